@@ -238,6 +238,12 @@ func (e *Engine) eq(a, b Value) *Term {
 		}
 		e.goPanic("runtime error: comparing uncomparable type map")
 	case SliceVal:
+		switch b.(type) {
+		case JBytes, bufBytes, SigBytes:
+			if a.arr == nil {
+				return tFalse
+			}
+		}
 		bs, ok := b.(SliceVal)
 		if ok && (a.arr == nil || bs.arr == nil) {
 			return mkBool(a.arr == nil && bs.arr == nil)
@@ -272,6 +278,12 @@ func (e *Engine) eq(a, b Value) *Term {
 			r = tAnd(r, e.eq(a.elems[i], bs.elems[i]))
 		}
 		return r
+	case JBytes, bufBytes, SigBytes:
+		// byte slices holding a document: only comparison with nil is meaningful
+		if bs, ok := b.(SliceVal); ok && bs.arr == nil {
+			return tFalse
+		}
+		e.goPanic("runtime error: comparing uncomparable type []byte")
 	case FuncVal:
 		bf, ok := b.(FuncVal)
 		return mkBool(ok && a.fn == nil && bf.fn == nil && a.native == nil && bf.native == nil)
